@@ -49,6 +49,16 @@ def cases(ctx):
         if r.random() < 0.2:
             c.graph.add_node("kout", type=r.choice(["0", "1"]), output=True)
         yield {"op": "roundtrip", "c": proj(c), "src": "G3"}
+    from .C18 import rand_cyclic
+
+    n = 0
+    for j in range(400):
+        p = rand_cyclic(ctx.rng("C15cyc", j))
+        if p is not None and "x" not in p["ty"]:
+            n += 1
+            yield {"op": "roundtrip", "c": p, "src": "CYC"}
+            if n >= (25 if ctx.quick else 300):
+                break
 
 
 def run_case(case, ctx):
@@ -66,7 +76,7 @@ def run_case(case, ctx):
         nt = any(it["k"] == "bb" for it in p["items"]) or len(p["items"]) >= 3
         return {"kind": "parse", "p": vlog.to_spec(p), "r": proj(c) if c is not None else {}, "exc": exc, "expect_reject": False,
                 "text": text, "nontrivial": nt}
-    c = build(case["c"])
+    c = build(case["c"], case.get("ord"))
     exc, c2, text = "", None, ""
     try:
         text = cg.io.circuit_to_bench(c)
@@ -80,7 +90,7 @@ def run_case(case, ctx):
 
 def negctl(e, rng):
     key = "r" if e["kind"] == "parse" else "c2"
-    if e["exc"] or not e[key]:
+    if e["exc"] or not e[key] or not e[key].get("acyc"):
         return []
     r = copy.deepcopy(e[key])
     flip = {"and": "nand", "nand": "and", "or": "nor", "nor": "or", "xor": "xnor", "xnor": "xor", "not": "buf", "buf": "not"}
